@@ -257,6 +257,9 @@ func runC06(c *Ctx) {
 		// current chain only if a disconnected block's transactions leave it together with the tip stamp (shared with C15-R1)
 		checkCoupledRollback(c, "C06-R1")
 		checkStartupWalk(c, "C06-R1")
+		// ... and everything that depended on a disconnected coinbase leaves the spendable set with it: the outpoints whose
+		// spenders the rollback removes are recorded with the index of the credit at hand
+		checkLoopCarriedStructs(c, "C06-R1", []string{"rollback", "updateMinedBalance"})
 		// "not leased" is read from the lease bucket: a lease ends only by its owner, its expiry or a confirmed spend
 		// (C12-R5's rules) — not when an unconfirmed spend is recorded, which can be forgotten again
 		c.Borrow(runC12, "C12-R5", "C06-R1", func(k string) bool {
